@@ -31,6 +31,10 @@ store_dict 1 bit (+ 1 reference for a cell); store_cell / store_slice the (remai
 store_string 8 bits per UTF-8 byte (its `<= 127 bytes` assertion coincides with capacity); store_snake_bytes fits when
 the data fits the free whole bytes OR one reference is free.
 
+Out-of-range values generated for composites: coins / var_uint / var_int beyond the length field or negative, addr_std
+with a workchain outside int8, ExternalAddress(v, len) with v >= 2**len or len > 511.  The class len == 0 with v != 0
+has its own signature ('store/addr_ext:len0/accepted/out-of-range'): the library writes addr_extern len=0 and drops v.
+
 Deliberately NOT asserted: exception types; atomicity of a refused composite store (the statement only promises that no
 over-full cell results: after a raise the model re-synchronises from the builder's actual content and only the limits
 are checked); where store_snake_bytes cuts the chain (any whole-byte prefix in the current cell is accepted); the
